@@ -736,16 +736,16 @@ class C11(Oracle):
                 return [V('move_obstacles/raises', f'{type(err).__name__} on {c["state"]}')]
             g0, g1 = s0.grid, s1.grid
             h, w = g0.shape.height, g0.shape.width
-            obs0 = [p for p in g0.area.positions() if isinstance(g0[p], MovingObstacle)]
-            obs1 = [p for p in g1.area.positions() if isinstance(g1[p], MovingObstacle)]
+            obs0 = [p for p in g0.area.positions() if (type(g0[p]) is MovingObstacle)]
+            obs1 = [p for p in g1.area.positions() if (type(g1[p]) is MovingObstacle)]
             if len(obs0) != len(obs1):
                 out.append(V('move_obstacles/obstacle-count-changed', f'{c["state"]}: {len(obs0)} -> {len(obs1)}'))
             for p in g0.area.positions():
                 o0, o1 = g0[p], g1[p]
-                if not isinstance(o0, (Floor, MovingObstacle)) and enc_obj(o0) != enc_obj(o1):
+                if type(o0) not in (Floor, MovingObstacle) and enc_obj(o0) != enc_obj(o1):
                     out.append(V('move_obstacles/non-floor-cell-changed', f'{c["state"]} at {p}'))
                     break
-                if isinstance(o0, (Floor, MovingObstacle)) and not isinstance(o1, (Floor, MovingObstacle)):
+                if type(o0) in (Floor, MovingObstacle) and type(o1) not in (Floor, MovingObstacle):
                     out.append(V('move_obstacles/non-floor-cell-changed', f'{c["state"]} at {p}'))
                     break
             # reference sweep (the property statement, literally)
@@ -768,12 +768,12 @@ class C11(Oracle):
             if len(obs0) == 1:
                 p = obs0[0]
                 nb = [(p.y - 1, p.x), (p.y, p.x + 1), (p.y + 1, p.x), (p.y, p.x - 1)]
-                free = [q for q in nb if 0 <= q[0] < h and 0 <= q[1] < w and isinstance(g0[q], Floor)]
+                free = [q for q in nb if 0 <= q[0] < h and 0 <= q[1] < w and (type(g0[q]) is Floor)]
                 reached = set()
                 for k in range(len(free)):
                     s = fast_copy(s0)
                     trf.move_obstacles(s, a, rng=ScriptRng([k]))
-                    reached |= {q.yx for q in s.grid.area.positions() if isinstance(s.grid[q], MovingObstacle)}
+                    reached |= {q.yx for q in s.grid.area.positions() if (type(s.grid[q]) is MovingObstacle)}
                 if free and reached != set(free):
                     out.append(V('move_obstacles/free-neighbour-unreachable', f'{c["state"]}'))
         elif c['atoms'] == [6]:
@@ -785,10 +785,10 @@ class C11(Oracle):
             c = dict(c, state=c['state'] + tag)
             here = s0.grid[s0.agent.position]
             partners = []
-            if isinstance(here, Telepod):
-                partners = [p for p in s0.grid.area.positions() if p != s0.agent.position and isinstance(s0.grid[p], Telepod) and s0.grid[p].color == here.color]
+            if type(here) is Telepod:
+                partners = [p for p in s0.grid.area.positions() if p != s0.agent.position and type(s0.grid[p]) is Telepod and s0.grid[p].color == here.color]
             if err is not None:
-                sig = 'teleport/unpaired-telepod-raises' if isinstance(here, Telepod) and not partners else 'teleport/raises'
+                sig = 'teleport/unpaired-telepod-raises' if type(here) is Telepod and not partners else 'teleport/raises'
                 return [V(sig, f'{type(err).__name__} on {c["state"]}')]
             if enc_state(s1)[: len(enc_state(s1)) - 0].split()[:-4] != enc_state(s0).split()[:-4]:
                 out.append(V('teleport/changes-grid', c['state']))
@@ -996,6 +996,19 @@ class C12(Oracle):
             out.append(V('reduce_any_all/wrong', f'{c} {ta} {tl} {tv}'))
         if (vals[0] == 5.0) != (tv[0] is True):
             out.append(V('reach_exit/reward-termination-disagree', f'{c}'))
+        # a component obtained by name with parameters pays what the function called with those parameters
+        # pays - zero is a value like any other
+        for nm, kw in (('reach_exit', dict(reward_on=0.0, reward_off=-1.0)), ('reach_exit', dict(reward_on=2.0, reward_off=0.0)),
+                       ('living_reward', dict(reward=0.0)), ('bump_into_wall', dict(reward=0.0)), ('bump_moving_obstacle', dict(reward=0.0)),
+                       ('bump_into_wall', dict(reward=-1.5))):
+            try:
+                got = rf.factory(nm, **kw)(s, a, s2)
+                exp = rf.reward_function_registry[nm](s, a, s2, **kw)
+            except Exception as e:
+                out.append(V('factory/component-by-name-raises', f'{nm} {kw}: {type(e).__name__}'))
+                continue
+            if got != exp:
+                out.append(V('factory/component-by-name-pays-differently', f'{nm} {kw}: {got} instead of {exp}'))
         return out
 
 
